@@ -548,6 +548,9 @@ where
         }
         self.metrics.record_execution_attempt();
 
+        // An error is authoritative only if the whole attempt ran at the commit head: an attempt
+        // that started earlier may have read state its predecessors had not published yet.
+        let started_at_commit_head = self.scheduler_ctx.committed_idx() == txid;
         let tx_env = self.txs[txid].clone();
         let IncarnationExecution { result, accesses } =
             executor.execute_incarnation(tx_version.clone(), tx_env);
@@ -653,7 +656,7 @@ where
                     self.tx_dependency.add(txid, self.latest_unfinalized_blocker(&blocking_txs));
                 } else {
                     self.metrics.record_evm_error_conflict();
-                    if self.scheduler_ctx.committed_idx() == txid {
+                    if started_at_commit_head {
                         if invalid_transaction {
                             self.abort(AbortReason::FallbackSequential);
                         } else {
